@@ -315,11 +315,27 @@ func (e *Engine) appendOp(st *State, cc *ssa.CallCommon, args []Value, pos token
 	if add.Len.S == "0" {
 		return s
 	}
+	// string view of a byte append: str(result) == str(s) ++ (appended text)
+	var oldStr, addStr Term
+	byteAppend := false
+	if b, ok := s.Elem.Underlying().(*types.Basic); ok && b.Kind() == types.Uint8 {
+		byteAppend = true
+		oldStr = e.bytesToStr(st, s)
+		if x, isStr := args[1].(Term); isStr && x.Sort.K == KStr {
+			addStr = x
+		} else {
+			addStr = e.bytesToStr(st, add)
+		}
+	}
 	newLen := Add(s.Len, add.Len)
 	fits := Le(newLen, s.Cap)
 	fresh := st.alloc()
-	resArr := e.ctx.Define("app_arr", Ite(fits, s.Arr, fresh))
-	resOff := e.ctx.Define("app_off", Ite(fits, s.Off, IntLit(0)))
+	// fresh constants (not macros): they occur inside quantifier patterns
+	// (ix resOff j), where an inlined ite would never match
+	resArr := e.ctx.Fresh("app_arr", SInt)
+	resOff := e.ctx.Fresh("app_off", SInt)
+	st.assume(Eq(resArr, Ite(fits, s.Arr, fresh)))
+	st.assume(Eq(resOff, Ite(fits, s.Off, IntLit(0))))
 	resCap := e.ctx.Fresh("app_cap", SInt)
 	st.assume(And(Le(newLen, resCap), Implies(fits, Eq(resCap, s.Cap))))
 	st.assume(Le(resCap, T("4611686018427387904", SInt)))
@@ -331,27 +347,31 @@ func (e *Engine) appendOp(st *State, cc *ssa.CallCommon, args []Value, pos token
 		oldRes := Select(a, resArr)
 		src := Select(a, add.Arr)
 		sOld := Select(a, s.Arr)
-		if n, ok := isIntLit(add.Len); ok && n <= 4 {
-			// explicit element stores
-			cur := Ite(fits, oldRes, e.copiedPrefix(st, inner, sOld, s.Off, s.Len))
-			for k := int64(0); k < n; k++ {
-				cur = Store(cur, IX(resOff, Add(s.Len, IntLit(k))), Select(src, IX(add.Off, IntLit(k))))
-			}
-			st.setHeapArr(ks.Key, Store(a, resArr, cur))
-		} else {
+		{
 			na := e.ctx.Fresh("app_cont", inner)
 			j := T("j!q", SInt)
-			st.assume(Forall([]Term{j}, Implies(And(Le(IntLit(0), j), Lt(j, s.Len)),
+			st.assume(ForallPat([]Term{j}, [][]Term{{IX(resOff, j)}, {IX(s.Off, j)}}, Implies(And(Le(IntLit(0), j), Lt(j, s.Len)),
 				Eq(Select(na, IX(resOff, j)), Select(sOld, IX(s.Off, j))))))
-			st.assume(Forall([]Term{j}, Implies(And(Le(IntLit(0), j), Lt(j, add.Len)),
-				Eq(Select(na, IX(resOff, Add(s.Len, j))), Select(src, IX(add.Off, j))))))
+			if n, ok := isIntLit(add.Len); ok && n <= 4 {
+				// short append: one explicit fact per appended element
+				for k := int64(0); k < n; k++ {
+					st.assume(Eq(Select(na, IX(resOff, Add(s.Len, IntLit(k)))), Select(src, IX(add.Off, IntLit(k)))))
+				}
+			} else {
+				st.assume(ForallPat([]Term{j}, [][]Term{{IX(resOff, Add(s.Len, j))}, {IX(add.Off, j)}}, Implies(And(Le(IntLit(0), j), Lt(j, add.Len)),
+					Eq(Select(na, IX(resOff, Add(s.Len, j))), Select(src, IX(add.Off, j))))))
+			}
 			// in-place append leaves the rest of the array untouched
 			st.assume(Implies(fits, Forall([]Term{j}, Implies(Or(Lt(j, Add(s.Off, s.Len)), Ge(j, Add(s.Off, newLen))),
 				Eq(Select(na, j), Select(oldRes, j))))))
 			st.setHeapArr(ks.Key, Store(a, resArr, na))
 		}
 	}
-	return SliceV{Arr: resArr, Off: resOff, Len: newLen, Cap: resCap, Elem: s.Elem}
+	res := SliceV{Arr: resArr, Off: resOff, Len: newLen, Cap: resCap, Elem: s.Elem}
+	if byteAppend {
+		st.assume(Eq(e.bytesToStr(st, res), e.sconcat(st, oldStr, addStr)))
+	}
+	return res
 }
 
 // copiedPrefix: a fresh inner array whose [0,n) equals src[off, off+n).
@@ -361,7 +381,7 @@ func (e *Engine) copiedPrefix(st *State, inner *Sort, src Term, off, n Term) Ter
 		return na
 	}
 	j := T("j!q", SInt)
-	st.assume(Forall([]Term{j}, Implies(And(Le(IntLit(0), j), Lt(j, n)), Eq(Select(na, IX(IntLit(0), j)), Select(src, IX(off, j))))))
+	st.assume(ForallPat([]Term{j}, [][]Term{{IX(IntLit(0), j)}, {IX(off, j)}}, Implies(And(Le(IntLit(0), j), Lt(j, n)), Eq(Select(na, IX(IntLit(0), j)), Select(src, IX(off, j))))))
 	return na
 }
 
@@ -667,6 +687,10 @@ func (e *Engine) applyContract(st *State, fn *ssa.Function, c *Contract, args []
 	}
 	for _, en := range c.Ensures {
 		st.assume(e.evalSpecBool(post, en.Expr))
+	}
+	for _, ab := range c.Abstracts {
+		st.assume(e.evalSpecBool(post, ab.Expr))
+		e.trustedUsed["UNCHECKED abstraction assumed about "+callee+": "+ab.Src] = true
 	}
 	for _, cs := range c.Cases {
 		var rq []Term
